@@ -127,6 +127,27 @@ def main():
             src = render_impl_case(c)
         crate.add_case(cid, src)
         origin[cid] = ("enumerated-" + c["mode"], c["body"])
+    # option sets x item visibilities x both macro names on a small module, fn and impl block: nothing an option turns on may
+    # touch the annotated item itself
+    OPTS = ["pub T", "T", "pub(crate) T", "pub T, mockall", "pub T, export, mockall", "T, export, mockall", "pub(crate) T, export, mock_api = Mk, unimock",
+            "pub T, mock_api = Mk, unimock", "pub T, ?Send", "pub T, no_deps", "pub T, export = false, mockall"]
+    k = 0
+    for mac in ("entrait", "entrait_export"):
+        for opts in OPTS:
+            for ivis in ("", "pub ", "pub(crate) "):
+                if "no_deps" in opts:
+                    body = "pub fn f(a: u32) -> u32 { a }"
+                    single = f"{ivis}fn g{k}(a: u32) -> u32 {{ a }}"
+                else:
+                    body = "pub fn f<D>(d: &D, a: u32) -> u32 { a }"
+                    single = f"{ivis}async fn g{k}<D: Sync>(d: &D, a: u32) -> u32 {{ a }}"
+                cid = f"o{k:04d}"
+                crate.add_case(cid, f"#[::entrait::{mac}({opts})]\n{ivis}mod m {{\n    {body}\n    const K: u8 = 1;\n}}\n")
+                origin[cid] = ("options-mod", None)
+                cid = f"p{k:04d}"
+                crate.add_case(cid, f"#[::entrait::{mac}({opts})]\n{single}\n")
+                origin[cid] = ("options-fn", None)
+                k += 1
     nrand = 6000 if thorough else 1500
     for n in range(nrand):
         kind, attr, item = soup.gen_case(rng, n)
@@ -199,7 +220,7 @@ def main():
     chk.cov["by_origin"] = kinds
     chk.cov["accepted_by_macro"] = sum(1 for m in meta.values() if m["expanded"])
     chk.cov["distinct_nontrivial"] = len({json.dumps(e["l1"]["toks"]) for e in events if e["obs"]["expanded"] and len(e["l1"]["toks"]) > 8})
-    chk.cov["rule"] = ("(a) every catalogue body of spec/Items.tla (mod and impl) up to the tier's item bound, (b) seeded random "
+    chk.cov["rule"] = ("(a) every catalogue body of spec/Items.tla (mod and impl) up to the tier's item bound, (a') 11 option sets x 3 item visibilities x both macro names on a module and a fn, (b) seeded random "
                        "fn/mod/impl inputs with attributes, qualifiers and macro-embedded token soups (gen/soup.py), (c) every "
                        "invocation of the repository's tests/it suite; non-trivial = accepted by the macro and > 8 tokens; "
                        "distinct by input token sequence")
